@@ -16,7 +16,7 @@ import numpy as np
 
 from .. import fem
 from .. import universe as U
-from ..core import guarded
+from ..fem import guarded
 from ..project import fx
 
 ALL = ('value', 'grad', 'div', 'curl', 'hess')
